@@ -16,7 +16,7 @@ var driveHosts = []string{
 	"example.org", "sub.example.org", "a.b.example.org", "notexample.org", "example.com", "www.example.co.uk",
 	"google.com", "mail.google.co.uk", "a.google.x.notgoogle.com", "google.blogspot.com", "google.foo.ck",
 	"google.zz", "www.ck", "notgoogle.google.com", "a.mygoogle.google.co.uk", "notexample.example.org", "ads.tracker.net", "tracker.net", "xn--e1afmkfd.org", "cdn.example.org", "example.org.evil.com",
-	"localhost", "1.2.3.4",
+	"localhost", "1.2.3.4", "cafe.be", "abc.de", "ad.feed.cc",
 }
 
 var driveDomains = []string{
@@ -128,7 +128,7 @@ func rndPattern(rnd *rand.Rand, url, host string) string {
 		return "|" + url[:7+rnd.Intn(len(url)-7)]
 	case 4:
 		i := rnd.Intn(len(url) - 3)
-		return url[i:i+3+rnd.Intn(len(url)-i-3+1)]
+		return url[i : i+3+rnd.Intn(len(url)-i-3+1)]
 	case 5:
 		i := rnd.Intn(len(url) - 3)
 		return strings.ToUpper(url[i : i+3])
